@@ -333,7 +333,12 @@ def r_tmpdir(ctx, rule='R-TMPDIR'):
                 subj = strip(e[1])
                 subj = subj[1] if subj[0] == 'discr' else subj
                 if from_tmpdir(f, subj):
-                    return list(e[2]) == ([0] if want == 'None' else [1])
+                    vals = list(e[2])
+                    if not vals and len(e) > 3 and e[3]:
+                        # the `otherwise` edge of a switch listing only the other variant (`if let Some(..) = .. else ..`)
+                        listed = [int(v) for v, _t in paths.switch_at(f, s0)['targets']]
+                        vals = [v for v in (0, 1) if v not in listed]
+                    return vals == ([0] if want == 'None' else [1])
         if depth >= 3:
             return False
         # not decided here: every call site of this function must be guarded
@@ -405,3 +410,5 @@ def run(ctx):
     r_tmpdir(ctx)
     effect_scan(ctx, 'R-NO-COMMIT', EFF_TXN_ENV, what='transaction/environment functions')
     r_raii(ctx)
+    import rules as _rules
+    ctx.floor('R-SETTER', 'option setters', _rules.r_setters(ctx, ('writer::ArroyBuilder',)), 5)
